@@ -391,6 +391,8 @@ impl<'l, T: Debug> OrderedLocalQueue<'l, T> {
             let local_queues = &self.shared.local_queues;
             let num = local_queues.len();
             let start = rand::rng().random_range(0..num);
+            #[cfg(feature = "verif")]
+            let start = crate::verif::choice("steal_start", num).unwrap_or(start);
             for i in 0..num {
                 let i = (start + i) % num;
                 if let Some(another) = local_queues.get(i) {
